@@ -58,6 +58,8 @@ func BuildWorlds(cfg Config, prop string, nFix, nSyn, rejectPct int, rich bool, 
 				opts.SetupName = "my.setup.go"
 			case 1:
 				opts.Nested = true
+			case 2:
+				opts.SetupName = "catalog.go"
 			}
 			nAcc++
 		}
